@@ -343,6 +343,46 @@ theorem dm_loss_eq_bs_thinning (c s : ℚ) (n k : ℕ) (hk : k ≤ n) (hcs : c *
   unfold krausW2
   rw [Nat.choose_symm hk, ← hcs, Nat.sub_sub_self hk]
 
+/-! ### a long-lived processor / simulator: the answers do not depend on the history -/
+
+/-- `session_history_independent`: for every preparation function (in particular the loss expansion
+`rewrite`, whose matrix is given by `expanded_unitary`), every starting state — with or without a
+simulator already built, whatever it holds — and every history of parameter changes, in-place edits,
+`Processor.add` and queries, a long-lived processor gives, query by query, exactly the answers of the
+memoryless specification "prepare the components with their current values": a loss channel is
+always simulated with its current loss, at the point where it currently is. -/
+theorem session_history_independent {C P : Type} (prepare : C → P) (s : Sess C P)
+    (ops : List (SOp C)) :
+    (SM.run (sessStep prepare) s ops).2 = (SM.run (specStep prepare) s.comps ops).2 ∧
+      (SM.run (sessStep prepare) s ops).1.comps = (SM.run (specStep prepare) s.comps ops).1 := by
+  have h := SM.refine_run (sessStep prepare) (specStep prepare) (fun s a => s.comps = a)
+    (by
+      intro s a op h
+      subst h
+      cases op with
+      | edit f => exact ⟨rfl, rfl⟩
+      | add f => exact ⟨rfl, rfl⟩
+      | query => cases hs : s.sim <;> simp [sessStep, specStep, hs])
+    s s.comps rfl ops
+  exact ⟨h.2, h.1⟩
+
+/-- after a query the inner simulator holds the preparation of the current components (the invariant
+behind the theorem above, for every history that ends with a query) -/
+theorem session_sim_is_current {C P : Type} (prepare : C → P) (s : Sess C P) :
+    ((sessStep prepare s .query).1.sim = some (prepare s.comps)) ∧
+      (sessStep prepare s .query).2 = some (prepare s.comps) := by
+  cases hs : s.sim <;> simp [sessStep, hs]
+
+/-- Negative witness (regression): a decorator that skips the preparation "because it has already
+seen this circuit" is *not* history independent — after a parameter change the second query still
+answers with the old preparation.  (`prepare = id` on ℕ: the value itself.) -/
+theorem cached_session_depends_on_history :
+    ¬ ∀ (prepare : ℕ → ℕ) (s : Sess ℕ ℕ) (ops : List (SOp ℕ)),
+      (SM.run (sessStepCached prepare) s ops).2 = (SM.run (specStep prepare) s.comps ops).2 := by
+  intro h
+  have := h id ⟨0, none⟩ [.query, .edit (fun _ => 1), .query]
+  simp [SM.run, sessStepCached, specStep] at this
+
 /-! ### layer choice of `SimulatorFactory.build` -/
 
 /-- a list with a loss channel (and no feed-forward) gets the loss layer, outermost -/
